@@ -3,7 +3,7 @@
    HashMultiMap.h, details/ArrayBucket.h and stdish/unordered_multimap.h; their extracted OCaml is run against the
    real C++ on every check (see prop.py). *)
 From Coq Require Import ZArith List Permutation.
-From C08 Require Import ArrayBucketModel MultiMapModel.
+From C08 Require Import ArrayBucketModel MultiMapModel WrapperModel Examples.
 Import ListNotations.
 Local Open Scope Z_scope.
 
@@ -100,7 +100,7 @@ Print Assumptions C08_arraybucket_add_transitions.
 (* RemoveBack: to null exactly when the last value goes; a pooled block keeps its pool; a heap array never
    returns to a pool and shrinks to 2*count exactly when 2 < count <= capacity/4 (count before the removal) *)
 Theorem C08_arraybucket_remove_transitions :
-  forall (M : Z), 0 < M < 16 -> forall r : repr, repr_inv M r -> 1 <= rcount r ->
+  forall (M : Z) (r : repr), repr_inv M r -> 1 <= rcount r ->
   match r, remove_back r with
   | RFast st, RNull => fcount_of st = 1
   | RHeap cap cnt, RNull => cnt = 1
@@ -112,3 +112,91 @@ Theorem C08_arraybucket_remove_transitions :
   end.
 Proof. exact remove_back_transitions. Qed.
 Print Assumptions C08_arraybucket_remove_transitions.
+
+(* ------------------------------------------------------------------ the std-style wrapper *)
+(* operator== (as coded: size test, then per left key with values: find, count, is_permutation) is EXACTLY multiset
+   equality of the (key, value) pairs, for any two containers with distinct keys and consistent counts -- value-less
+   keys left by erase_if on either side are invisible. *)
+Theorem C08_wrapper_eq_iff_pairs_permutation :
+  forall l r : mm, WInv l -> WInv r -> (w_eq l r = true <-> Permutation (pairs l) (pairs r)).
+Proof. exact w_eq_iff_pairs_permutation. Qed.
+Print Assumptions C08_wrapper_eq_iff_pairs_permutation.
+
+(* every reachable HashMultiMap state satisfies the hypothesis WInv of the wrapper theorems *)
+Theorem C08_wrapper_inv_from_history :
+  forall (M : Z) (m : mm), Inv M m -> WInv m.
+Proof. exact inv_winv. Qed.
+Print Assumptions C08_wrapper_inv_from_history.
+
+(* count(k) = number of pairs with key k; hence it depends only on the multiset of pairs *)
+Theorem C08_wrapper_count_is_pair_count :
+  forall (m : mm) (k : Z), NoDup (keys (fst m)) -> w_count m k = count_occ Z.eq_dec (map fst (pairs m)) k.
+Proof. exact w_count_spec. Qed.
+Print Assumptions C08_wrapper_count_is_pair_count.
+
+Theorem C08_wrapper_count_depends_only_on_pairs :
+  forall (m1 m2 : mm) (k : Z), NoDup (keys (fst m1)) -> NoDup (keys (fst m2)) ->
+    Permutation (pairs m1) (pairs m2) -> w_count m1 k = w_count m2 k.
+Proof. exact w_count_depends_only_on_pairs. Qed.
+Print Assumptions C08_wrapper_count_depends_only_on_pairs.
+
+(* equal_range(k) yields exactly the values paired with k (empty for a value-less key) *)
+Theorem C08_wrapper_equal_range_is_pairs_of_key :
+  forall (m : mm) (k : Z), NoDup (keys (fst m)) ->
+    w_equal_range m k = map snd (filter (fun p => fst p =? k) (pairs m)).
+Proof. exact w_equal_range_spec. Qed.
+Print Assumptions C08_wrapper_equal_range_is_pairs_of_key.
+
+Theorem C08_wrapper_equal_range_depends_only_on_pairs :
+  forall (m1 m2 : mm) (k : Z), NoDup (keys (fst m1)) -> NoDup (keys (fst m2)) ->
+    Permutation (pairs m1) (pairs m2) -> Permutation (w_equal_range m1 k) (w_equal_range m2 k).
+Proof. exact w_equal_range_depends_only_on_pairs. Qed.
+Print Assumptions C08_wrapper_equal_range_depends_only_on_pairs.
+
+(* erase(key) removes exactly the pairs with that key and returns their number *)
+Theorem C08_wrapper_erase_key :
+  forall (M : Z) (m : mm) (k : Z), NoDup (keys (fst m)) ->
+    pairs (w_erase_key M m k) = filter (fun p => negb (fst p =? k)) (pairs m) /\
+    get_count m - get_count (w_erase_key M m k) = Z.of_nat (w_count m k).
+Proof. exact w_erase_key_spec. Qed.
+Print Assumptions C08_wrapper_erase_key.
+
+(* erase(first, last) (case analysis of lines 569-591 over iterator positions a <= b <= size): whenever it does not
+   throw std::invalid_argument, exactly the pairs of [first, last) are removed and nothing else *)
+Theorem C08_wrapper_erase_range_removes_exactly_the_range :
+  forall (M : Z) (m : mm) (a b : nat) (m' : mm), WInv m -> (a <= b <= length (pairs m))%nat ->
+    w_erase_range M m a b = ErOk m' ->
+    Permutation (pairs m) (pairs m' ++ slice a b (pairs m)).
+Proof. exact w_erase_range_spec. Qed.
+Print Assumptions C08_wrapper_erase_range_removes_exactly_the_range.
+
+(* erase_if removes exactly the pairs satisfying the predicate *)
+Theorem C08_wrapper_erase_if :
+  forall (M : Z) (m : mm) (p : Z -> Z -> bool),
+    Permutation (pairs (w_erase_if M m p)) (filter (fun kv => negb (p (fst kv) (snd kv))) (pairs m)).
+Proof. exact w_erase_if_spec. Qed.
+Print Assumptions C08_wrapper_erase_if.
+
+(* ------------------------------------------------------------------ non-vacuity (concrete states, by computation) *)
+Theorem C08_nonvacuous_history_heap_then_valueless_key :
+  let s := run 2 hist1 in
+  abs (fst (fst s)) 1 = Some (10, []) /\ get_count (fst s) = 1 /\ get_key_count (fst s) = 3 /\
+  traverse (fst s) = [(2, 8)] /\
+  fst (earr (match find 1 (fst (fst (run 2 (firstn 3 hist1)))) with Some e => e | None => mkE 0 0 ab_null end)) = RHeap 4 3 /\
+  abs (fst (step1 2 (fst s) (ORemoveKey 1))) 1 = None.
+Proof. exact ex_history_heap_then_valueless. Qed.
+Print Assumptions C08_nonvacuous_history_heap_then_valueless_key.
+
+Theorem C08_nonvacuous_eq_ignores_valueless_keys :
+  get_key_count wl = 2 /\ get_key_count wr = 1 /\ w_eq wl wr = true /\ w_eq wr wl = true /\
+  w_count wl 1 = O /\ w_equal_range wl 1 = [].
+Proof. exact ex_eq_ignores_valueless_keys. Qed.
+Print Assumptions C08_nonvacuous_eq_ignores_valueless_keys.
+
+Theorem C08_nonvacuous_erase_range_cases :
+  (match w_erase_range 7 w3 0 3 with ErOk m => pairs m | ErThrow => [(9, 9)] end) = [] /\
+  (match w_erase_range 7 w3 1 3 with ErOk _ => false | ErThrow => true end) = true /\
+  (match w_erase_range 7 (w_insert 7 w3 1 7) 0 3 with ErOk m => pairs m | ErThrow => [] end) = [(1, 7)] /\
+  (match w_erase_range 7 w3 1 2 with ErOk m => pairs m | ErThrow => [] end) = [(0, 4); (0, 6)].
+Proof. exact ex_erase_range. Qed.
+Print Assumptions C08_nonvacuous_erase_range_cases.
